@@ -31,13 +31,16 @@ def run(ctx: Context) -> None:
                  ("C06.R2", "each holder of a closeable closes it in its own close"),
                  ("C06.R3", "an opened stream is transferred or closed on every path"),
                  ("C06.R4", "CONNECT refusal closes the proxy connection before raising"),
-                 ("C06.R5", "backends close the socket when the TLS upgrade fails")):
+                 ("C06.R5", "backends close the socket when the TLS upgrade fails"),
+                 ("C06.R6", "is_closed() is true only after the connection's own close ran (the pool drops closed connections without closing them)")):
         rep.rule(r, t)
     for tree, N in trees(ctx):
         _r1(ctx, tree, N)
         _r2(ctx, tree, N)
         _r3(ctx, tree, N)
         _r4(ctx, tree, N)
+        _r6(ctx, tree, N)
+        closed_store_paired(ctx, "C06.R6", tree, N)
     _r5(ctx)
     rep.assume("a backend's start_tls consumes its receiver and closes it on Exception (checked on the three real backends by R5); on cancellation it does not")
 
@@ -283,6 +286,66 @@ def _r3(ctx: Context, tree: str, N: Names) -> None:
                 rep.ob("C06.R3", fkey(tree, f, f"own:{kind.split(':')[0]}:line{0}:ok:{var}"), True, where(f, own.cfg.nodes[nid].ast),
                        f"stream `{var}` ({kind.split(':')[0]}) is transferred or closed on every path")
     rep.floor("C06.R3", f"stream acquisitions ({tree})", nacq, 5)
+
+
+def _r6(ctx: Context, tree: str, N: Names) -> None:
+    """The pool drops a connection that reports is_closed() WITHOUT closing it: the predicate must be true only
+    after the connection's own close ran (state CLOSED is stored only next to the stream close, C01.R1 + R2)."""
+    from ..norm import Sym, UNKNOWN, peval
+    from .c01 import expanded_return
+
+    rep = ctx.rep
+    for mod, cn in (("http11", "AsyncHTTP11Connection"), ("http2", "AsyncHTTP2Connection")):
+        c = N.cls(mod, cn)
+        f = c.methods["is_closed"]
+        e = expanded_return(ctx, f)
+        rows = {}
+        for state in [k for k in c.module.classes["HTTPConnectionState"].class_assigns]:
+            for err in (False, True):
+                for exhausted in (False, True):
+                    env = {"self._state": Sym("HTTPConnectionState." + state), "self._connection_error": err, "self._used_all_stream_ids": exhausted,
+                           "self._expire_at": None, "self._read_exception": None, "self._write_exception": None, "self._connection_terminated": None}
+                    got = peval(e, env)
+                    if got is UNKNOWN or bool(got) != (state == "CLOSED"):
+                        rows[f"{state},error={err},ids_exhausted={exhausted}"] = str(got)
+        rep.ob("C06.R6", fkey(tree, f, "is_closed-means-closed"), not rows, where(f),
+               "is_closed() is true exactly in state CLOSED (which is stored only by the close routine, next to the stream close)" if not rows else
+               f"is_closed() is true in {sorted(rows)[:4]} although the close routine has not run: the pool removes such a connection WITHOUT closing it - its stream stays open, owned by nobody")
+    for mod, cn in (("connection", "AsyncHTTPConnection"), ("socks_proxy", "AsyncSocks5Connection"), ("http_proxy", "AsyncTunnelHTTPConnection"), ("http_proxy", "AsyncForwardHTTPConnection")):
+        c = N.cls(mod, cn)
+        f = c.methods["is_closed"]
+        rets = sorted(norm(r.value) for r in own_nodes(f.node) if isinstance(r, ast.Return) and r.value is not None)
+        ok = rets in (["self._connection.is_closed()"], ["self._connect_failed", "self._connection.is_closed()"])
+        if ok and len(rets) == 2:
+            flag = [r for r in own_nodes(f.node) if isinstance(r, ast.Return) and norm(r.value) == "self._connect_failed"]
+            ok = "None==self._connection" in guard_atoms(guards_of(flag[0])) or "self._connection==None" in guard_atoms(guards_of(flag[0]))
+        rep.ob("C06.R6", fkey(tree, f, "is_closed-delegates"), ok, where(f), f"{cn}.is_closed returns {rets}" + ("" if ok else " - must delegate to the inner connection (failed flag only while none exists)"))
+
+
+def closed_store_paired(ctx: Context, rule: str, tree: str, N: Names) -> None:
+    """Every store of the CLOSED state is followed on every normal path by the close of the network stream
+    (a connection that *reports* closed is dropped by the pool without being closed, and no longer counted)."""
+    from .c01 import const_name, state_stores
+
+    rep = ctx.rep
+    n = 0
+    for mod, cn in (("http11", "AsyncHTTP11Connection"), ("http2", "AsyncHTTP2Connection")):
+        c = N.cls(mod, cn)
+        for f in c.methods.values():
+            for st in state_stores(f):
+                if not (isinstance(st, ast.Assign) and const_name(st.value) == "CLOSED"):
+                    continue
+                n += 1
+                cfg = ctx.cfg(f)
+                sn = cfg.nodes_for(st)
+                closes = lambda x: node_calls(x, lambda call: norm(call.func) in ("self._network_stream.aclose", "self._network_stream.close"))
+                reach = cfg.reachable([e.dst for e in sn[0].succ if e.kind != "exc"], follow=lambda e: e.kind != "exc", stop=closes) if sn else set()
+                ok = bool(sn) and cfg.exit.id not in reach
+                rep.ob(rule, fkey(tree, f, "closed-store-closes-stream"), ok, where(f, st),
+                       "the CLOSED state is stored together with the close of the network stream" if ok else
+                       f"{f.short} stores state CLOSED without closing the network stream: the pool forgets the connection (no longer counted against max_connections, never closed) "
+                       "while its stream - possibly with other requests still in flight - stays open")
+    rep.floor(rule, f"CLOSED state stores ({tree})", n, 2)
 
 
 def _r4(ctx: Context, tree: str, N: Names) -> None:
